@@ -56,6 +56,7 @@ def run(prog, chk):
     chk.rule(geomalg.check, prog, chk, "C09", floor=47)
     from props import strops
     chk.rule(strops.check_for, prog, chk, "C09")  # A14.str-ops: how this property's strings are cut up is a reviewed, frozen inventory
+    chk.rule(strops.blank_only_separators, prog, chk)  # a pair / list cut at blanks is cut at tabs and newlines too
 
 
 def _variant_of(n):
